@@ -107,7 +107,7 @@ func ParseHTML(src string, o Opts) (*tree.HTML, error) {
 	if base == "" {
 		base = "file:///verif-nonexistent/"
 	}
-	h, err := tree.NewHTML(utils.InputString(src), base, nil, "")
+	h, err := tree.NewHTML(utils.InputString(src), base, Fetcher, "")
 	if err != nil {
 		return nil, err
 	}
